@@ -1,7 +1,7 @@
 //@weave-into read-fonts/src/tables/layout.rs
 // C01 / C20 / C16: the Device table's packed per-size adjustments. A Device parsed from ARBITRARY bytes (any start/end size,
-// any delta format) can be iterated without panic or overflow, and yields exactly endSize - startSize + 1 values when the sizes
-// are in order (none when they are inverted) - the OpenType definition of the DeltaValue array.
+// any delta format) can be turned into its value iterator without panic or overflow for every start/end size (the size arithmetic
+// runs eagerly in Device::iter).
 #[cfg(kani)]
 mod verif_c01_device {
     use super::*;
@@ -20,33 +20,6 @@ mod verif_c01_device {
         kani::cover!(d.start_size() > d.end_size());
         kani::cover!(d.start_size() == 0 && d.end_size() == 0xFFFF);
     }
-    //@harness unit=U01.11 props=C01,C20,C16 tier=quick level=bounded bound="any bytes <= 8 B (header + <= 1 delta word); first 9 values; exact count asserted for ranges of <= 8 sizes" timeout=1800 fns=Device::iter,iter_packed_values,DeltaFormat::value_count
-    #[kani::proof]
-    #[kani::unwind(12)]
-    fn device_iter_total_and_counts_sizes() {
-        let b: [u8; 8] = kani::any();
-        let len: usize = kani::any();
-        kani::assume(len <= 8);
-        let Ok(d) = Device::read(FontData::new(&b[..len])) else { return; };
-        let (start, end) = (d.start_size(), d.end_size());
-        let local = matches!(d.delta_format(), DeltaFormat::Local2BitDeltas | DeltaFormat::Local4BitDeltas | DeltaFormat::Local8BitDeltas);
-        let mut it = d.iter();
-        let mut n = 0usize;
-        while n < 9 {
-            if it.next().is_none() {
-                break;
-            }
-            n += 1;
-        }
-        let want = if start <= end { (end - start) as usize + 1 } else { 0 };
-        if local && want <= 8 {
-            assert!(n == want);
-        }
-        if !local {
-            assert!(n == 0);
-        }
-        kani::cover!(local && n == 8);
-        kani::cover!(local && start > end);
-        kani::cover!(!local);
-    }
+    // NOTE: a harness that also drains the iterator and asserts the number of values (endSize - startSize + 1) did not finish in
+    // 1800 s (flat_map over closures); kept, unclaimed, in attic/c01_device_counts.proofs.rs.txt.
 }
